@@ -29,6 +29,15 @@ STRINGS = [
     "b'by'", "f'{x}'", "...", "_", "x y z", "%s", "{0}", "\x00", "\x0c", "\r", "a\r\nb", " ", "\xa0",
     "\x1c", "\x1f\x85", "\u2003", "\u3000\t", "\u200b", "\u2028", "\ufeff", "1\u2003+\u20031", "\U0001F600", "a\u0301",
 ]
+# H4: text that the grammar accepts as an expression but that the compiler rejects with a SyntaxError: evaluation is
+# impossible, so in automatic mode the original string must arrive.  The first block uses no free names (usable with
+# the real evaluator as well).
+COMPILE_REJECTED_CLOSED = ["*1", "(yield)", "yield", "lambda x, x: 1", "(__debug__ := 1)", "[(i:=0) for i in range(2)]",
+                           "*[1]", "(yield from [1])", "lambda __debug__: 0", "[i for i in range(2) if (i := 1)]",
+                           "len(__debug__=1)", "(lambda: (__debug__ := 1))", "{(a:=1) for a in (1, 2)}"]
+COMPILE_REJECTED = COMPILE_REJECTED_CLOSED + ["*a", "await x", "f(a=1, a=2)", "1 if await x else 2", "[await x]",
+                                              "yield x", "lambda a, b, a: a+b", "print(x=1, x=2)"]
+
 DASH_STRINGS = ["-", "--", "-5", "-1.5", "--x", "--x=1", "-x", "---", "--=", "-=", "-=x", "--x=", "--x==", "?", "??", "-?",
                 "--?", "-??", "--??", "--help", "-h", "--h", "-help", "--source", "-source", "--help=1", "-h=", "-é", "--1x=2",
                 "--x-y=1", "--x.y=1", "-- ", " --", "--\n", "- ", "-\n"]
@@ -84,6 +93,79 @@ def hostile_scope(tier, rng):
             for mode in modes:
                 out.append(dict(kind="parse", sig=sig, items=items, argv=render(items), mode=mode, stdin=h,
                                 unimportable=["x y"], evalerr=[]))
+    return out
+
+
+def defects_scope(tier, rng):
+    """Deterministic inputs of the families H1-H4 (every run sees each of them):
+    H4 every compile-rejected string in every argument position, automatic mode, stub evaluator (+ string mode sample);
+    H2 `--name=` / `-name=` with nothing after the `=`, first / middle / last, repeated;
+    H3 options collected by **kw in non-alphabetical order;
+    H1 `--map f a -- b` with the `--` after 1..n arguments (stub and real evaluator; the real evaluator also gets
+       the compile-rejected strings through --apply)."""
+    out = []
+    sig = dict(args=["a", "b"], ndefaults=1, varargs="rest", kwonly=["key"], kwdefaults=["key"], varkw="kw")
+    for h in COMPILE_REJECTED:
+        placements = [[["pos", "2+3"], ["pos", h], ["pos", "None"]],
+                      [["pos", "2+3"], ["opt", "--k=v", "key", h]],
+                      [["pos", "1"], ["opt", "--k v", "b", h]],
+                      [["opt", "-k=v", "zz", h], ["pos", "x y"]],
+                      [["pos", "1"], ["dd", [h, "2+3"]]]]
+        if tier != "thorough":
+            placements = rng.sample(placements, 2)
+        for items in placements:
+            for mode in (MODES if tier == "thorough" else ["auto"]):
+                out.append(dict(kind="parse", sig=sig, items=items, argv=render(items), mode=mode, stdin=h,
+                                unimportable=["x y"], evalerr=[]))
+    sig2 = dict(args=["a", "x"], ndefaults=1, varargs=None, kwonly=["key"], kwdefaults=["key"], varkw="kw")
+    for form in ("--k=v", "-k=v"):
+        for items in ([["opt", form, "x", ""], ["pos", "5"]], [["pos", "5"], ["opt", form, "x", ""]],
+                      [["opt", "--k=v", "x", "1"], ["opt", form, "x", ""], ["pos", "5"]],
+                      [["pos", "5"], ["opt", form, "zz", ""], ["opt", "--k v", "key", "1+1"]],
+                      [["opt", form, "a", ""], ["opt", form, "key", ""]],
+                      [["pos", "1"], ["opt", form, "ke", ""], ["dd", ["--x="]]]):
+            for mode in MODES:
+                out.append(dict(kind="parse", sig=sig2, items=items, argv=render(items), mode=mode, stdin="",
+                                unimportable=[], evalerr=[]))
+    for sig3 in (dict(args=["p"], ndefaults=0, varargs=None, kwonly=["ko"], kwdefaults=["ko"], varkw="kw"),
+                 dict(args=[], ndefaults=0, varargs="rest", kwonly=[], kwdefaults=[], varkw="kw")):
+        for names in (["zeta", "alpha", "mid"], ["b2", "a1"], ["q", "zz", "other", "a"]):
+            items = [["opt", rng.choice(FORMS), n, str(i + 1)] for i, n in enumerate(names)]
+            if sig3["args"]:
+                items.insert(1, ["opt", "--k=v", "p", "0"])
+            out.append(dict(kind="parse", sig=sig3, items=items, argv=render(items), mode=rng.choice(MODES), stdin="",
+                            unimportable=[], evalerr=[]))
+            for ckind in ("function", "class_init"):
+                out.append(dict(kind="apply", ckind=ckind, route="direct", sig=sig3, mode="string", stdin="",
+                                items=items, argv=render(items), mode_token="string"))
+    sigm = dict(args=["x"], ndefaults=0, varargs=None, kwonly=[], kwdefaults=[], varkw=None)
+    sigv = dict(args=[], ndefaults=0, varargs="rest", kwonly=[], kwdefaults=[], varkw=None)
+    for sg in (sigm, sigv):
+        for args, dd in ((["1+1", "2+2"], 1), (["a b", "1+2", "--x=2", "-"], 2), (["None", "3.5"], 2),
+                         (["2+3", "?", "--", "-5"], 1)):
+            for mode in MODES:
+                for ckind in ("function", "method"):
+                    case = dict(kind="apply", ckind=ckind, route="map", sig=sg, mode=mode, stdin="", items=None,
+                                map_literal=False, map_dd=dd, map_args=list(args),
+                                gopts=rng.choice(MAIN_MODE_GOPTS[mode]), form=rng.choice(MAP_FORMS))
+                    case["argv"] = map_argv(case)
+                    out.append(case)
+        case = dict(kind="apply", ckind="function", route="map", sig=sg, mode="auto", stdin="", items=None, ns="real",
+                    map_literal=False, map_dd=1, map_args=["2+3", "2+3", "zzqhello"], gopts=["--args=auto"],
+                    form=["--map", TARGET_NAME])
+        case["argv"] = map_argv(case)
+        out.append(case)
+    for h in COMPILE_REJECTED_CLOSED:
+        for items in ([["pos", "2+3"], ["pos", h]], [["opt", "--k=v", "zz", h]]):
+            out.append(dict(kind="apply", ckind="function", route=rng.choice(["direct", "main_apply"]), ns="real",
+                            sig=dict(args=[], ndefaults=0, varargs="rest", kwonly=[], kwdefaults=[], varkw="kw"),
+                            mode="auto", stdin="", items=items, argv=render(items)))
+    for case in out:
+        if case["kind"] == "apply" and case["route"] == "direct":
+            case.setdefault("mode_token", rng.choice(DIRECT_MODE_TOKENS[case["mode"]]))
+        elif case["kind"] == "apply" and case["route"] == "main_apply":
+            case.setdefault("gopts", ["--args=auto"])
+            case.setdefault("form", ["--apply", TARGET_NAME])
     return out
 
 
@@ -152,6 +234,8 @@ def gen_string(rng, dash_ok=True):
     if rng.random() < 0.04:
         return gen_hostile(rng, dash_ok)
     r = rng.random()
+    if r < 0.03:
+        return rng.choice(COMPILE_REJECTED)
     if r < 0.62:
         return rng.choice(STRINGS)
     if r < 0.72 and dash_ok:
@@ -231,8 +315,8 @@ def gen_items(rng, sig, wild=False):
             v = gen_string(rng)
             if not wild:
                 if form.endswith("=v"):
-                    while v == "":
-                        v = gen_string(rng)
+                    if rng.random() < 0.07:
+                        v = ""          # H2: `--name=` binds the empty string
                 else:
                     while v.startswith("--"):
                         v = gen_string(rng)
@@ -289,8 +373,8 @@ def gen_items_valid(rng, sig):
                 form = "--" + form[1:]
         v = gen_string(rng)
         if form.endswith("=v"):
-            while v == "":
-                v = gen_string(rng)
+            if rng.random() < 0.07:
+                v = ""              # H2: `--name=` binds the empty string
         else:
             while v.startswith("--"):
                 v = gen_string(rng)
@@ -410,7 +494,7 @@ REAL_UNIMPORTABLE = ["zzqhello", "zzq.bar", "Willowbrook29817621+5", "zzqf(x)", 
 REAL_UNPARSABLE = ["a b", "$HOME", "hello world", "(1,", "x;y", "`ls`", "~/f", "*", "a=b", "1 2", "import os",
                    "print 1", "caf\udce9.txt", "'unterminated", "2014-07-18x", "a|", "%s", "> out", "$(true)", "x = 1"]
 REAL_BLANK = [" ", "\t", "\n"]
-REAL_POOL = REAL_EVALUABLE * 2 + REAL_UNIMPORTABLE * 2 + REAL_UNPARSABLE + REAL_BLANK
+REAL_POOL = REAL_EVALUABLE * 2 + REAL_UNIMPORTABLE * 2 + REAL_UNPARSABLE + REAL_BLANK + COMPILE_REJECTED_CLOSED
 
 
 def real_substitute(rng, case):
@@ -432,10 +516,31 @@ def real_substitute(rng, case):
         case["argv"] = render(items)
     else:
         case["map_args"] = [pick() for _ in case["map_args"]]
-        case["argv"] = (["--"] if case["map_literal"] else []) + case["map_args"]
+        case["argv"] = map_argv(case)
     case["ns"] = "real"
     case["stdin"] = rng.choice(["", "IN", "2+3", "zzqhello"])
     return case
+
+
+def map_dd(case):
+    """Where the `--` stands among the arguments of a --map case: None (no `--`), 0 (first: all literal), k > 0 (H1:
+    the first k arguments are read in the current mode, the rest are literal)."""
+    if "map_dd" in case:
+        return case["map_dd"]
+    return 0 if case.get("map_literal") else None
+
+
+def map_argv(case):
+    dd, args = map_dd(case), list(case["map_args"])
+    if dd is None:
+        return args
+    return args[:dd] + ["--"] + args[dd:]
+
+
+def map_steps(case):
+    """[(argument, literal?)] of a --map case as the property reads it."""
+    dd = map_dd(case)
+    return [(a, dd is not None and i >= dd) for i, a in enumerate(case["map_args"])]
 
 
 def looks_like_option_or_blank(a):
@@ -483,16 +588,19 @@ def gen_apply(rng, ckind=None, route=None, valid=None, real=None):
                 stdin=rng.choice(["", "IN", "1+1", "line1\nline2\n", "--x"]))
     if route == "map":
         n = rng.choice([1, 1, 2, 3, 4])
-        literal = rng.random() < 0.5
+        r = rng.random()
+        dd = None if r < 0.35 else (0 if r < 0.65 else rng.randint(1, n))      # H1: `--` in the middle / at the end
         args = []
-        for _ in range(n):
+        for i in range(n):
+            literal = dd is not None and i >= dd
             s = gen_string(rng, dash_ok=literal)
             while not literal and (s.startswith("-") or s in HELP_TOKENS):
                 s = gen_string(rng, dash_ok=False)
             args.append(s)
-        case.update(map_literal=literal, map_args=args, argv=(["--"] if literal else []) + args, items=None,
+        case.update(map_literal=(dd == 0), map_dd=dd, map_args=args, items=None,
                     gopts=rng.choice(MAIN_MODE_GOPTS[mode] + ([[], ["-q"]] if mode == "auto" else [])),
                     form=rng.choice(MAP_FORMS))
+        case["argv"] = map_argv(case)
         if real:
             real_substitute(rng, case)
         return case
